@@ -103,11 +103,17 @@ func buildLeaf(typ string, opts []string, variant int) (query.Query, error) {
 		f := bleve.NewFuzzyQuery([]string{"cot", "dag", "cat"}[v%3])
 		f.SetFuzziness(1 + v%2)
 		f.SetPrefix(v % 2)
+		if has(opts, "@auto") {
+			f.SetAutoFuzziness(true)
+		}
 		q = f
 	case "match":
 		m := bleve.NewMatchQuery([]string{"cat dog", "dog", "Cat"}[v%3])
 		m.SetFuzziness(v % 2)
 		m.SetPrefix((v / 2) % 2)
+		if has(opts, "@auto") {
+			m.SetAutoFuzziness(true)
+		}
 		if has(opts, "analyzer") {
 			m.Analyzer = []string{"simple", "keyword", "standard"}[v%3]
 		}
@@ -118,6 +124,9 @@ func buildLeaf(typ string, opts []string, variant int) (query.Query, error) {
 	case "match_phrase":
 		m := bleve.NewMatchPhraseQuery([]string{"cat dog", "dog cat"}[v%2])
 		m.SetFuzziness(v % 2)
+		if has(opts, "@auto") {
+			m.SetAutoFuzziness(true)
+		}
 		if has(opts, "analyzer") {
 			m.Analyzer = []string{"simple", "standard"}[v%2]
 		}
@@ -125,10 +134,16 @@ func buildLeaf(typ string, opts []string, variant int) (query.Query, error) {
 	case "phrase":
 		p := query.NewPhraseQuery([]string{"cat", "dog"}, "")
 		p.SetFuzziness(v % 2)
+		if has(opts, "@auto") {
+			p.SetAutoFuzziness(true)
+		}
 		q = p
 	case "multi_phrase":
 		p := query.NewMultiPhraseQuery([][]string{{"cat", "cot"}, {"dog"}}, "")
 		p.SetFuzziness(v % 2)
+		if has(opts, "@auto") {
+			p.SetAutoFuzziness(true)
+		}
 		q = p
 	case "query_string":
 		q = bleve.NewQueryStringQuery([]string{"+cat dog^2", "t:cat -p:>5", "\"cat dog\" a:1"}[v%3])
